@@ -88,6 +88,15 @@ Fixpoint leaf_paths (q : query) : list (list bytes) :=
   | QMatchAll => [[]]
   end.
 
+Fixpoint has_matchall (q : query) : bool :=
+  match q with
+  | QMatchAll => true
+  | QTerm _ _ _ => false
+  | QConj qs => existsb has_matchall qs
+  | QDisj _ qs => existsb has_matchall qs
+  | QBool m s n _ => existsb has_matchall m || existsb has_matchall s || existsb has_matchall n
+  end.
+
 Fixpoint lcp2 (a b : list bytes) : list bytes :=
   match a, b with
   | x :: a', y :: b' => if beqb x y then x :: lcp2 a' b' else []
@@ -131,8 +140,15 @@ Fixpoint sat (q : query) (n : node) (k : nat) {struct q} : bool :=
       negb (is_nil qs) && descend n (skipn k P) (fun e => forallb (fun x => sat x e k') qs)
   | QDisj min qs => disj_sem min (map (fun x => sat x n k) qs)
   | QBool m s mn min =>
-      bool_sem (map (fun x => sat x n k) m) (map (fun x => sat x n k) s)
-               (map (fun x => sat x n k) mn) min
+      (* the must clauses of a boolean query form a conjunction (BooleanQuery.Must is a
+         ConjunctionQuery), the should and must-not clauses disjunctions *)
+      let P := lcp_all (flat_map leaf_paths m) in
+      let k' := Nat.max k (length P) in
+      bool_sem (match m with
+                | [] => []
+                | _ => [descend n (skipn k P) (fun e => forallb (fun x => sat x e k') m)]
+                end)
+               (map (fun x => sat x n k) s) (map (fun x => sat x n k) mn) min
   | QMatchAll => true
   end.
 
@@ -466,15 +482,6 @@ Definition fold_roots (forest : list fnode) (stream : list Z) : list Z := fold_r
 
 (* buildTopNCollector: the nested collector is used iff the query mentions _id (match-all) or a
    field under a nested prefix *)
-Fixpoint has_matchall (q : query) : bool :=
-  match q with
-  | QMatchAll => true
-  | QTerm _ _ _ => false
-  | QConj qs => existsb has_matchall qs
-  | QDisj _ qs => existsb has_matchall qs
-  | QBool m s n _ => existsb has_matchall m || existsb has_matchall s || existsb has_matchall n
-  end.
-
 Definition uses_nested_collector (q : query) : bool :=
   has_matchall q || existsb (fun p => negb (is_nil p)) (leaf_paths q).
 
@@ -501,7 +508,7 @@ Definition model_search (docs : list doc) (q : query) : option (list Z) :=
 (** * Query shapes on which the statement is (not) met today *)
 
 Definition all_top (qs : list query) : bool :=
-  forallb is_nil (flat_map leaf_paths qs).
+  forallb is_nil (flat_map leaf_paths qs) && negb (existsb has_matchall qs).
 
 (* queries built only from shapes whose raw-number evaluation is per parent: disjunctions with
    min >= 2 and booleans with a must-not / required should only over top-level fields, and no
